@@ -120,10 +120,32 @@ end
 
 /-! ### the regenerated handler-check table -/
 
-/-- does handler `fn` run one consistency check that covers all of `operands`? -/
-def covered (table : List (String × List (String × List String))) (fn : String) (operands : List String) : Bool :=
+/-- one row of the regenerated handler table: (kind, operands covered, placed before the first call
+    into NumPy that receives one of them, an unconditional statement of the handler body) -/
+abbrev CheckRow := String × List String × Bool × Bool
+
+/-- does handler `fn` run — unconditionally, and before NumPy is handed the operands — one
+    consistency check of an accepted `kind` that covers all of `operands`? -/
+def covered (table : List (String × List CheckRow)) (kinds : List String) (fn : String)
+    (operands : List String) : Bool :=
   match table.find? (·.1 == fn) with
   | none => false
-  | some (_, checks) => checks.any fun c => operands.all fun o => c.2.contains o
+  | some (_, checks) => checks.any fun c =>
+      kinds.contains c.1 && c.2.2.1 && c.2.2.2 && operands.all fun o => c.2.1.contains o
+
+section
+variable {K : Type} [OfNat K 0] [OfNat K 1]
+
+/-- what a check of a given kind does with the operands it is handed (first = the reference
+    operand for the `_v2` / side-value kinds); kinds without a model here answer `.ok` -/
+def runCheck (ueq : UnitV K → UnitV K → Bool) (kind : String) (objs : List (Obj K)) : Except Err Unit :=
+  if kind = "validate" then (validateConsistency ueq objs).map fun _ => ()
+  else if kind = "validate_v2" || kind = "validate_side" then
+    match objs with
+    | .arr (some ref) :: args => validateV2 ueq ref args
+    | _ => .error .Other
+  else .ok ()
+
+end
 
 end Unyt.ArrayChecks
